@@ -48,6 +48,17 @@ TargetOK(e) ==
     [] e.k = "un" -> e.op \in {"neg", "pos"} /\ TargetOK(e.e)
     [] OTHER -> FALSE
 
+\* a temperature scale operator anywhere inside an expression (C10: refused inside compound conversion targets)
+RECURSIVE HasDegree(_), HasDegreeSeq(_, _)
+HasDegreeSeq(es, i) == i <= Len(es) /\ (HasDegree(es[i]) \/ HasDegreeSeq(es, i + 1))
+HasDegree(e) ==
+  CASE e.k = "un" -> e.op \notin {"neg", "pos"} \/ HasDegree(e.e)
+    [] e.k = "bin" -> HasDegree(e.l) \/ HasDegree(e.r)
+    [] e.k = "mul" -> HasDegreeSeq(e.es, 1)
+    [] e.k = "call" -> HasDegreeSeq(e.args, 1)
+    [] e.k = "of" -> HasDegree(e.e)
+    [] OTHER -> FALSE
+
 \* successive truncated division (eval.rs to_list): parts for units us[1..n]
 RECURSIVE ListParts(_, _, _, _)
 ListParts(v, us, i, acc) ==
@@ -115,6 +126,7 @@ QueryValue(q, env) ==
            [] c.c = "expr" ->
                 LET top == Ev(q.e, env) IN
                 IF top.t = "err" THEN top
+                ELSE IF HasDegree(c.e) THEN VErr("generic")      \* a scale operator inside a compound target: refused
                 ELSE LET bot == Ev(c.e, env) IN
                      IF bot.t = "err" THEN bot
                      ELSE IF ~TargetOK(c.e) THEN VUnknown
